@@ -13,11 +13,11 @@ TEXT = {
          "6 C01", "Lean 4 proof over hand-written model + differential correspondence (locations projection)"),
  "C02": ("Lean theorems: metavariable kind test, consistency of repeated occurrences, no leakage between attempts (site list is a function of matcher, node and the incoming data); 'stands for identical code' (order-free) agrees with 'compare with the first occurrence' on well-typed trees (eqvM is Euclidean there; counterexample on ill-typed values). Tie: in-process engine and built binary against the model on patterns with repeated metavariables and identical / almost identical (incl. respelled literals) / different fillers, wide patterns, non-identifier fillers for identifier metavariables.",
          "6 C02", "Lean 4 proof over hand-written model + differential correspondence (match decisions and locations)"),
- "C03": ("Lean theorems: replacement = instantiation of the '+' pattern with fresh copies of the captures; unbound metavariable is an error; the only silent skip is non-assignability. Tie: replaced subtrees of the in-process engine and of the built binary against the model; a site both sides matched and only the model rewrote is a violation; a change the model cannot generate must make the binary fail and leave the file alone; a table of '+' sides whose tokens must arrive byte for byte, with hand-written expected files.",
+ "C03": ("Lean theorems: the rewrite rule (the matched code is an instance of the '-' pattern and the generated code an instance of the '+' pattern under one substitution, the site's bindings, for every pattern and every tree); fresh copies of the captures; unbound metavariable is an error; the only silent skip is non-assignability. Tie: replaced subtrees of the in-process engine and of the built binary against the model; a site both sides matched and only the model rewrote is a violation; a change the model cannot generate must make the binary fail and leave the file alone; a table of '+' sides whose tokens must arrive byte for byte, with hand-written expected files.",
          "6 C03", "Lean 4 proof over hand-written model + differential correspondence (content at rewritten sites)"),
  "C04": ("Lean theorems: the list matcher with elision succeeds iff some choice of runs exists (sound and complete against the inductive spec) and picks the leftmost-shortest solution; runs are reproduced unchanged; the run recorded for an elision is still there when the whole pattern has matched, provided elisions have distinct patch positions (evaluated per case; counterexample = repaired defect F24). Tie: in-process engine and built binary against the model on patterns with 1..3 elisions (also at the top level of statement patterns, adjacent, with a shared metavariable) and empty/non-empty runs.",
          "6 C04", "Lean 4 proof over hand-written model + differential correspondence (decision, locations, content)"),
- "C05": ("Lean frame theorems: slot updates leave every subtree not containing the parent untouched; nothing outside model sites changes; correspondence (in-process engine and built binary) checks that every change of the implementation lies inside a site and that the neighbours of a rewritten run are the original elements.",
+ "C05": ("Lean frame theorems: with the slots of the matched sites blanked the tree after the replacement loop, and after the new nodes were given identities, is the tree before it (for every list of sites, values and orders); slot updates leave every subtree not containing the parent untouched; correspondence (in-process engine and built binary) checks that every change of the implementation lies inside a site and that the neighbours of a rewritten run are the original elements.",
          "6 C05", "Lean 4 proof over hand-written model + differential correspondence (changes outside sites)"),
 }
 
@@ -29,7 +29,7 @@ TEXT.update({
          "6 C07", "Lean 4 proof over CLI loop model + black-box correspondence + go/parser oracle on emitted content"),
  "C12": ("Lean theorems: --diff/--print-only imply no write for all inputs; written = printed = diff-applied bytes; descriptions only for patched files." + CLI_NOTE,
          "6 C12", "Lean 4 proof over CLI loop model + black-box correspondence (disk digest, mode agreement)"),
- "C14": ("Lean theorems: effects of a run are the concatenation of per-file effects (file independence), API is a function of (patch, bytes)." + CLI_NOTE + " Arguments are permuted/repeated and named in several forms (relative, absolute, through excluded directories); site-dependent rewrite errors before files where the change applies; API repeated and concurrent Apply compared, and run under the Go race detector. Partial: real preemption is not modelled.",
+ "C14": ("Lean theorems: effects of a run are the concatenation of per-file effects (file independence), API is a function of (patch, bytes)." + CLI_NOTE + " Arguments are permuted/repeated and named in several forms (relative, absolute, through excluded directories); site-dependent rewrite errors before files where the change applies; API repeated and concurrent Apply compared, and run under the Go race detector; a batch of (patch, file) pairs is run several times in fresh processes and must print the same bytes (found F26); two packages in one directory under package-guarded patches. Partial: real preemption is not modelled.",
          "6 C14", "Lean 4 proof over CLI loop model + black-box grouped-vs-solo correspondence + API repetition"),
  "C16": ("Lean theorems: every failing file contributes an error and exit 1 wherever it sits; exit 0 implies all files processed; the temp-file+rename write is atomic at every fault/crash point (and the former in-place write is refuted)." + CLI_NOTE + " Faults enumerated: unparseable source, rewrite error, unparseable result, missing path/patch (also after a covering directory), unreadable target, temporary file that cannot be created (250-byte name, read-only directory) with a shrinking patch, RLIMIT_FSIZE at several byte counts.",
          "6 C16", "Lean 4 proof over CLI loop + write model + fault enumeration against the built binary"),
@@ -54,8 +54,8 @@ TEXT["C10"] = ("Lean theorems: package guard, import table rows (unnamed / liter
 TEXT["C11"] = ("Lean theorems over the import list: adding never removes, adds only the requested path; the clean-up deletes only imports of matched paths, keeps a matched import that is still referred to and not replaced by name, deletes one that is no longer referred to; unrelated imports survive. Tie: import multiset of the real engine vs the model on generated patches that add/delete/rename/match imports. astutil.AddNamedImport/DeleteNamedImport and imports.Process are assumed to have set semantics (validated differentially).",
          "6 C11", "Lean 4 proof over import-list model + differential import-multiset tie")
 
-TEXT["C17"] = ("Lean theorems: after any number of changes the comment list is a sublist of the input's (nothing invented, duplicated or reordered); a comment survives unless wholly inside a changed interval; NoPos intervals never remove comments (header/package comments are out of reach); metavariable copies carry no comments. Tie: (i) end-to-end oracle on the real binary: declarations with unchanged canonical syntax keep exactly their comments, header comments unchanged, no text more often than in the input; (ii) Lean filterComments on the intervals of the real engine vs the comments present in patch.File.Apply's output; (iii) the invariant astdiff owes the filter — no changed interval reaches into a declaration in which the engine model rewrote nothing (Lean predicate respects, theorem untouched_declaration_keeps_comments) — evaluated on the real engine's intervals of every case. Partial: ast.NewCommentMap, astdiff's edit script, intervalset and go/printer's comment placement are external.",
-         "6 C17", "Lean 4 proof over comment-filter model + end-to-end comment oracle + differential interval tie")
+TEXT["C17"] = ("Lean theorems: after any number of changes the comment list is a sublist of the input's (nothing invented, duplicated or reordered); a comment survives unless wholly inside a changed interval; NoPos intervals never remove comments (header/package comments are out of reach); metavariable copies carry no comments. Tie: (i) end-to-end oracle on the real binary: declarations with unchanged canonical syntax keep exactly their comments, header comments unchanged, no text more often than in the input; (ii) Lean filterComments on the intervals of the real engine vs the comments present in patch.File.Apply's output; (iii) the invariant astdiff owes the filter — no changed interval reaches into a declaration in which the engine model rewrote nothing (Lean predicate respects, theorem untouched_declaration_keeps_comments) — evaluated on the real engine's intervals of every case; (iv) internal/astdiff and internal/diff are modelled in Lean one to one and tied per applied change to the real Snapshot.Diff (regions reported, comment associations of the new snapshot), Changelog.ChangedIntervals as a set of positions tied per step to the real changelog. Theorems about that model, for trees and lists of every size: reported regions are made of positions of the old snapshot only; unchanged syntax reports nothing; the script of diff.Difference consumes both lists exactly and has its identities on equal cells; declarations that were not rewritten are paired with themselves (no twins, fewer than 64 rewritten in a row), also when the list changes its length; their neighbours' regions keep clear of them; so do the intervals the changelog returns. Partial: ast.NewCommentMap and go/printer's comment placement are external (end-to-end oracle only).",
+         "6 C17", "Lean 4 proof over comment-filter, astdiff, list-diff and changelog models + per-change differential ties + end-to-end comment oracle")
 
 REASONS = {}
 
